@@ -298,8 +298,9 @@ def imageDim (md : Meta) (key : String) (coords : Option Pts) (proj : Int × Int
     | some ps => .ok (some (extent (ps.map proj)))
     | none => .ok none
 
+/-- `field_xml.text = str(metadata[field])` (the parser reads an all-digit Creator as an int) -/
 def fieldElem (field : String) (v : PyVal) : Res Xml := do
-  let t ← needStr v
+  let t ← pyStr v
   pure ⟨field, [], some t, []⟩
 
 /-- `if field in metadata: add_pagexml_sub_element(metadata_ele, field).text = metadata[field]` -/
